@@ -68,6 +68,10 @@ pub struct DevCore {
     /// Ranges of guest memory a device resource is attached to (GPU backing): (paddr, len, label).
     pub attached: Vec<(u64, u64, String)>,
     pub log_events: bool,
+    /// The device refuses the driver's feature subset the way the specification provides for it:
+    /// FEATURES_OK does not stay set in the status register (VirtIO 1.2 section 3.1.1 step 6). Only what
+    /// the device *shows* changes; the event log keeps the values the driver wrote.
+    pub no_latch_features_ok: bool,
 }
 
 impl DevCore {
@@ -89,6 +93,7 @@ impl DevCore {
             resets: 0,
             attached: Vec::new(),
             log_events: true,
+            no_latch_features_ok: false,
         }
     }
 
@@ -122,6 +127,8 @@ impl DevCore {
         self.log(Ev::Status(v));
         if v == 0 {
             self.reset();
+        } else if self.no_latch_features_ok {
+            self.status = v & !8;
         } else {
             self.status = v;
         }
